@@ -528,12 +528,21 @@ func suiteWsInject(e *vh.Env) {
 		}
 		before := len(be.received())
 		msgJS, _ := json.Marshal(string(text))
+		wantType := websocket.TextMessage
+		if rng.Chance(25) {
+			// the same bytes as a binary message (shim protocol 1: a one-element array holding the base64 text)
+			msgJS, _ = json.Marshal([]string{base64.StdEncoding.EncodeToString(text)})
+			wantType = websocket.BinaryMessage
+		}
 		c, rb := shimCall(h, "data", `[{"id":"`+open.ID+`","msg":`+string(msgJS)+`}]`, hdr)
 		if c != 200 || !be.waitRecv(before+1) {
 			e.Fail("C11:inject-data-failed", fmt.Sprintf("%d %s", c, rb), i, nil, nil, nil)
 			continue
 		}
 		got := be.received()[before]
+		if got.typ != wantType {
+			e.Fail("C11:inject-changed-type", fmt.Sprintf("message %q was sent as websocket message type %d and reached the backend as type %d (1 = text, 2 = binary)", truncBytesDrv(text, 80), wantType, got.typ), i, nil, got.typ, wantType)
+		}
 		if v == nil && len(text) > 0 && !json.Valid(text) {
 			if !bytes.Equal(got.data, text) {
 				e.Fail("C11:inject-changed-non-target", fmt.Sprintf("message %q is not a JSON value (data after the top-level value) but was changed to %q", text, got.data), i, nil, nil, nil)
